@@ -9,6 +9,7 @@
 //!   R=m|f|d                 archive dir of the shard: missing / a regular file / a directory
 //!   A=<hexname>=d|g         entry in the archive dir: a directory / an undecodable regular file
 //!   A=<hexname>=a=<id>=<start>=<end>=<e>|<e>…   a decodable archive built in memory from entries
+//!   AR=<hexname>            remove an entry of the archive dir
 //!   W=<hexname>=d           entry in the WAL dir: a directory
 //!   W=<hexname>=f=<rawhex>~<desc>,…   a WAL file made of the raw lines (desc is for the model)
 //!   X=…                     same as W, in a separate directory; XD: the cleaner is built by with_wal_dir on it
@@ -16,7 +17,7 @@
 //!   C=<k>                   WalCleaner::{new(0) | with_wal_dir(0, xdir)}.cleanup_up_to(k)
 //!   L=<id>                  WalArchiver::new(0).archive_log(id)          (wal_archive_manager archive)
 //!   REC                     WalArchiveRecovery::new(0, archive dir).recover_all()   (… recover)
-//! Output: observations of L / REC in order, then the final listing of both directories with every
+//! Output: observations of C (WAL listing after the cleanup) / L / REC in order, then the final listing of both directories with every
 //! archive decoded by WalArchive::read_from_file.
 //!
 //!             walarch_rt <scalar>    one trip of a payload value through to_compressed_bytes / from_compressed_bytes
@@ -186,6 +187,7 @@ fn run_case(t: &[String]) -> String {
         }
         let (k, v) = c.split_once('=').expect("cmd");
         match k {
+            "AR" => wipe(&arch.join(osname(v))),
             "R" => {
                 wipe(&arch);
                 match v { "m" => {}, "f" => fs::write(&arch, b"not a directory").unwrap(), _ => fs::create_dir_all(&arch).unwrap() }
@@ -212,6 +214,7 @@ fn run_case(t: &[String]) -> String {
                 let keep: u64 = v.parse().unwrap();
                 let cleaner = if use_x { WalCleaner::with_wal_dir(0, xwal.clone()) } else { WalCleaner::new(0) };
                 cleaner.cleanup_up_to(keep);
+                obs.push(if use_x { format!("C:{}/{}", listing_w(&wal), listing_w(&xwal)) } else { format!("C:{}", listing_w(&wal)) });
             }
             "L" => {
                 let r = WalArchiver::new(0).archive_log(v.parse().unwrap());
